@@ -24,7 +24,9 @@ EXTENDS Bellman
 
 (* ------------------------------------------------------------ backward loop *)
 \* one iteration of the backward loop: Vs (for periods t..T-1) -> periods t-1..T-1
-SolveStep(M, t, Vs) == <<VStep(M, t - 1, IF Vs = <<>> THEN <<>> ELSE Vs[1])>> \o Vs
+\* TLCEval: TLC evaluates functions lazily; the value function of a period must be tabulated once,
+\* not recomputed at every look-up from the period before
+SolveStep(M, t, Vs) == <<TLCEval(VStep(M, t - 1, IF Vs = <<>> THEN <<>> ELSE Vs[1]))>> \o Vs
 
 (* ------------------------------------------------------------ forward loop *)
 \* set of maximising feasible choice assignments at state values stEnv
